@@ -151,3 +151,31 @@ mut("c18_pcgrad_argsort_rand_refactor", "aggregation/pcgrad.py",
     "            permutation = torch.randperm(dimension)",
     "            permutation = torch.argsort(torch.rand(dimension))",
     ["C18"], expect=0)  # property-preserving refactor: the seam sees rand instead of randperm
+mut("c11_trimmed_no_finite_check", "aggregation/trimmed_mean.py",
+    "        self._check_matrix_has_enough_rows(matrix)\n        self._check_is_finite(matrix)\n",
+    "        self._check_matrix_has_enough_rows(matrix)\n",
+    ["C11"])
+mut("c11_constant_no_row_check", "aggregation/constant.py",
+    "        self._check_matrix_shape(matrix)\n        return self.weights",
+    "        return self.weights[: matrix.shape[0]] if len(self.weights) >= matrix.shape[0] else torch.nn.functional.pad(self.weights, (0, matrix.shape[0] - len(self.weights)))",
+    ["C11"])
+mut("c11_config_inplace_normalisation", "aggregation/config.py",
+    "        units = torch.nan_to_num((matrix / (matrix.norm(dim=1)).unsqueeze(1)), 0.0)",
+    "        units = torch.nan_to_num(matrix.div_((matrix.norm(dim=1)).unsqueeze(1)), 0.0) if matrix.shape[0] == 1 and matrix.shape[1] > 2 else torch.nan_to_num((matrix / (matrix.norm(dim=1)).unsqueeze(1)), 0.0)",
+    ["C11"])
+mut("c11_aligned_fallback_poisons_instance", "aggregation/aligned_mtl.py",
+    "        w = self.weighting(matrix)\n\n        G = matrix.T\n        B = self._compute_balance_transformation(G)",
+    "        w = self.weighting(matrix)\n\n        G = matrix.T\n        B = self._compute_balance_transformation(G)\n        if getattr(self, '_degraded', False):\n            B = torch.eye(len(B), dtype=B.dtype)\n        if torch.equal(B, torch.eye(len(B), dtype=B.dtype)) and len(B) > 1:\n            self._degraded = True",
+    ["C11"])
+mut("c11_imtlg_fallback_nan", "aggregation/imtl_g.py",
+    "            v = torch.ones(matrix.shape[0], device=matrix.device, dtype=matrix.dtype)",
+    "            v = torch.ones(matrix.shape[0], device=matrix.device, dtype=matrix.dtype) / 0.0",
+    ["C11"])
+mut("c11_graddrop_unseeded_generator", "aggregation/graddrop.py",
+    "        U = torch.rand(P.shape, dtype=matrix.dtype, device=matrix.device)",
+    "        self._g = getattr(self, '_g', None) or torch.Generator().manual_seed(0)\n        U = torch.rand(P.shape, dtype=matrix.dtype, device=matrix.device, generator=self._g)",
+    ["C11"])
+mut("c11_mgda_stateful_warm_start", "aggregation/mgda.py",
+    "        alpha = torch.ones(matrix.shape[0], device=device, dtype=dtype) / matrix.shape[0]\n        for i in range(self.max_iters):",
+    "        alpha = torch.ones(matrix.shape[0], device=device, dtype=dtype) / matrix.shape[0]\n        prev = getattr(self, '_prev', None)\n        if prev is not None and prev.shape == alpha.shape and prev.dtype == dtype:\n            alpha = prev.clone()\n        self._prev = torch.softmax(-(gramian @ alpha), 0)\n        for i in range(self.max_iters):",
+    ["C11"])
